@@ -76,6 +76,7 @@ pub struct Shared {
     pub w0_ns: u128,
     pub in_cycle: AtomicBool,
     pub hook_count: AtomicUsize,
+    pub op_sleep_us: AtomicU64,
 }
 
 pub fn shared() -> &'static Shared {
@@ -95,6 +96,7 @@ pub fn shared() -> &'static Shared {
         w0_ns: SystemTime::now().duration_since(UNIX_EPOCH).unwrap().as_nanos(),
         in_cycle: AtomicBool::new(false),
         hook_count: AtomicUsize::new(0),
+        op_sleep_us: AtomicU64::new(0),
     })
 }
 
